@@ -333,6 +333,67 @@ func vcUniverseRoute() *vcUniverse {
 }
 
 // ---------------------------------------------------------------------------------------------
+// U-route6: the IPv6 twin of U-route (dual-stack nodes whose IPv6 underlay address / subnet changes
+// in place or arrives late, IPv6 VXLAN tunnel address + MAC host config, IPv6 cross-subnet VXLAN
+// pool, IPv6 block, workload with an IPv6 address)
+
+func vcNode6(name, bgpV4, bgpV6, vxlanAddr6 string) func() any {
+	return func() any {
+		n := &internalapi.Node{
+			TypeMeta:   metav1.TypeMeta{Kind: internalapi.KindNode, APIVersion: v3.GroupVersionCurrent},
+			ObjectMeta: metav1.ObjectMeta{Name: name},
+		}
+		n.Spec.BGP = &internalapi.NodeBGPSpec{IPv4Address: bgpV4, IPv6Address: bgpV6}
+		n.Spec.IPv6VXLANTunnelAddr = vxlanAddr6
+		return n
+	}
+}
+
+func vcWEP6(iface string, labels map[string]string, nets6 ...string) func() any {
+	return func() any {
+		return &model.WorkloadEndpoint{
+			State:    "active",
+			Name:     iface,
+			IPv6Nets: vcNets(nets6...),
+			Labels:   uniquelabels.Make(labels),
+		}
+	}
+}
+
+func vcUniverseRoute6() *vcUniverse {
+	return &vcUniverse{Name: "route6", Keys: []vcKeyDef{
+		{Name: "h1", Key: model.ResourceKey{Kind: internalapi.KindNode, Name: vcLocal}, Vars: []vcVariant{
+			{Name: "netA", Make: vcNode6(vcLocal, "192.168.0.1/24", "fd00::1/64", "fd10::")},
+			{Name: "netB", Make: vcNode6(vcLocal, "192.168.0.1/24", "fd00:0:0:1::1/64", "fd10::")}, // only the IPv6 subnet differs
+			{Name: "v4only", Make: vcNode6(vcLocal, "192.168.0.1/24", "", "")},
+		}},
+		{Name: "h2", Key: model.ResourceKey{Kind: internalapi.KindNode, Name: vcRemote}, Vars: []vcVariant{
+			{Name: "inA", Make: vcNode6(vcRemote, "192.168.0.2/24", "fd00::2/64", "fd10:0:0:1::")},
+			{Name: "inB", Make: vcNode6(vcRemote, "192.168.0.2/24", "fd00:0:0:1::2/64", "fd10:0:0:1::")}, // only the IPv6 underlay address differs
+			{Name: "v4only", Make: vcNode6(vcRemote, "192.168.0.2/24", "", "")},
+		}},
+		{Name: "h2tun6", Key: model.HostConfigKey{Hostname: vcRemote, Name: "IPv6VXLANTunnelAddr"}, Vars: []vcVariant{
+			{Name: "t0", Make: vcStr("fd10:0:0:1::")},
+			{Name: "t1", Make: vcStr("fd10:0:0:1::1")},
+		}},
+		{Name: "h2mac6", Key: model.HostConfigKey{Hostname: vcRemote, Name: "VXLANTunnelMACAddrV6"}, Vars: []vcVariant{
+			{Name: "m", Make: vcStr("66:00:00:00:06:02")},
+		}},
+		{Name: "pool6", Key: model.IPPoolKey{CIDR: netip.MustParsePrefix("fd10::/48")}, Vars: []vcVariant{
+			{Name: "vxlanX", Make: vcPool("fd10::/48", encap.CrossSubnet, encap.Never, false)},
+			{Name: "vxlan", Make: vcPool("fd10::/48", encap.Always, encap.Never, true)},
+		}},
+		{Name: "blk6", Key: model.BlockKey{CIDR: netip.MustParsePrefix("fd10:0:0:1::/126")}, Vars: []vcVariant{
+			{Name: "h2", Make: vcBlock("fd10:0:0:1::/126", vcRemote)},
+			{Name: "h1", Make: vcBlock("fd10:0:0:1::/126", vcLocal)},
+		}},
+		{Name: "w1", Key: vcWEPKey(vcLocal, "w1"), Vars: []vcVariant{
+			{Name: "in6", Make: vcWEP6("cali1", map[string]string{"a": "1"}, "fd10:0:0:1::1/128")},
+		}},
+	}}
+}
+
+// ---------------------------------------------------------------------------------------------
 // U-dup: endpoints / network sets whose profile list names the same profile twice (legal input:
 // the validators only check each name). Explored separately so that the suspected defect H04 cannot
 // hide the rest of the space.
@@ -405,6 +466,12 @@ var vcBases = map[string]map[string][]string{
 		"unsynced": {"w1=in", "blk=h2", "h2tun=t0", "h2=near", "pool=vxlan"},
 		"flap":     {"h1=net24", "h2=near", "h2tun=t0", "pool=vxlan", "blk=h2", "w1=in", "insync", "flush", "blk=h1", "blk=h2", "h2tun=t1", "h2tun=t0", "-w1", "w1=in"},
 	},
+	"route6": {
+		"empty":    nil,
+		"full":     {"h1=netA", "h2=inA", "h2tun6=t0", "pool6=vxlanX", "blk6=h2", "w1=in6", "insync", "flush"},
+		"flap":     {"h1=netA", "h2=inA", "h2tun6=t0", "h2mac6=m", "pool6=vxlanX", "blk6=h2", "insync", "flush", "h1=netB", "h1=netA", "h2=inB", "h2=inA", "blk6=h1", "blk6=h2"},
+		"unsynced": {"blk6=h2", "h2=inA", "pool6=vxlanX", "h2tun6=t0"},
+	},
 	"dup": {
 		"empty": nil,
 		"full":  {"t1=o10", "p1lab=b1", "p1rules=allow", "pA=hasB", "w1=p1p1", "insync", "flush"},
@@ -414,14 +481,14 @@ var vcBases = map[string]map[string][]string{
 var vcBaseOrder = []string{"empty", "full", "alt", "flap", "dangling", "unsynced"}
 
 func vcUniverses() map[string]*vcUniverse {
-	return map[string]*vcUniverse{"pol": vcUniversePol(), "set": vcUniverseSet(), "route": vcUniverseRoute(), "dup": vcUniverseDup()}
+	return map[string]*vcUniverse{"pol": vcUniversePol(), "set": vcUniverseSet(), "route": vcUniverseRoute(), "route6": vcUniverseRoute6(), "dup": vcUniverseDup()}
 }
 
 func vcPropUniverses(prop *vcProp) []string {
 	if prop.Universes != nil {
 		return prop.Universes
 	}
-	return []string{"pol", "set", "route"}
+	return []string{"pol", "set", "route", "route6"}
 }
 
 // vcPlan lists the explorations of this run. Quick: graph mode depth 3 from the empty, full, flap and dangling
